@@ -147,6 +147,12 @@ func worker() {
 		// similar cost at the same residue; a stride would load the shards unevenly)
 		mul := permMultiplier(total)
 		for k := *fShard; k < total; k += *fNShards {
+			if agg.NViolations >= 3 {
+				// the verdict is settled (every violation is reported with its own replay file): on a tree that hangs in
+				// many cases the rest of the shard would only cost one watchdog period per case
+				agg.Counters["cases_not_run_after_3_violations_in_shard"] += (total - k + *fNShards - 1) / *fNShards
+				break
+			}
 			do(int(uint64(k) * uint64(mul) % uint64(total)))
 		}
 	}
